@@ -153,9 +153,12 @@ static void run_oracle(const std::string &cmd, const RCP<const Basic> &e, const 
     for (int t = 0; t < ntry; t++) {
         map_basic_basic m;
         std::string desc;
+        bool all_real = true;
         for (size_t i = 0; i < symv.size(); i++) {
             const auto &c = cands[i];
             RCP<const Number> v = t == 0 ? c[0] : t < 4 ? c[(t * 5 + i) % c.size()] : c[r.below(c.size())];
+            if (is_a<Complex>(*v))
+                all_real = false;
             m[symv[i]] = v;
             desc += (i ? "," : "") + symv[i]->__str__() + "=" + v->__str__();
         }
@@ -186,6 +189,13 @@ static void run_oracle(const std::string &cmd, const RCP<const Basic> &e, const 
                 continue;
             }
             bad = std::abs(a - b) > 1e-9 * std::max(1.0, std::abs(a));
+            if (bad && all_real && std::abs(a - std::conj(b)) <= 1e-9 * std::max(1.0, std::abs(a))) {
+                // all sample values are real and the two values are complex conjugates: a logarithm / fractional
+                // power was evaluated exactly on its branch cut and the sign of a rounding-error-sized imaginary
+                // part decided the side (e.g. log(x*pi/sec(y)) vs log(x*pi*cos(y)) at a negative argument)
+                stat("oracle-point-on-branch-cut");
+                continue;
+            }
             got = tostr(b.real()) + (std::fabs(b.imag()) > 1e-12 ? "+" + tostr(b.imag()) + "i" : "");
         }
         tested++;
